@@ -152,6 +152,26 @@ SEEDS = {
  "C18j": ("C18", "WRKChain export reverses the record list into its own backing array", "a WRKChain with two or more records at export time"),
  "C20i": ("C20", "WRKChain list callback returns a hit for entries outside the page before filtering", "same idea as the fourth-round listing change (offset continuation of a filtered list)"),
  "C20j": ("C20", "status filter switch has no case for ACCEPTED", "list filtered by ACCEPTED in the one block between tally and minting"),
+ "C02k": ("C02", "an order of a purchaser that left the whitelist is dropped from the accepted queue after its status was already set to completed: completed, never minted", "whitelist removal between raise and the minting block"),
+ "C02l": ("C02", "tally counts decisions through one map for the whole queue; the reset is skipped by the `continue` of the reject branches", "a rejected or expired order carrying an accept next to an open order with some accepts"),
+ "C03k": ("C03", "tally skips orders with fewer decisions than MinAccepts", "high quorum (2 MinAccepts > signers + 1): the decisive rejection arrives early and the order stays raised"),
+ "C03l": ("C03", "accepted queue iterated from a resume cursor (last drained id + 1)", "a higher-id order completes before a lower-id one is accepted: the latter stays accepted forever"),
+ "C04k": ("C04", "one mint per purchaser per block; Coin.Add result discarded when merging", "two orders of one purchaser accepted in the same block (same idea as C04j)"),
+ "C04l": ("C04", "decrementLockedUnd deletes a record that reaches zero and returns before updating the total", "a fee that uses a payer's locked eFUND to the last nund"),
+ "C07k": ("C07", "WRKChain registration idempotent per owner and moniker: the entry is refreshed with zeroed counters", "the owner registers the same moniker again, then re-records old heights"),
+ "C07l": ("C07", "BEACON record swallows a submission equal to the last one (hash and submit time)", "two consecutive identical submissions: success is reported, nothing is stored, identifiers shift"),
+ "C08k": ("C08", "the new record is written after pruning", "an in-state limit of exactly 1 (same idea as C08j)"),
+ "C08l": ("C08", "BEACON purchase guard msg.Number > max - limit", "same idea as C08b / C08i"),
+ "C10k": ("C10", "claim returns before the store write when the receiver share is zero", "validator fee exactly 1.0 (same idea as C10e / C12j)"),
+ "C10l": ("C10", "duplicate check of create replaced by 'is the stream live' (zero time in the future)", "a create over a stream that ran dry with unclaimed deposit: the old deposit is orphaned in the escrow"),
+ "C11k": ("C11", "duration computed with Quo (rounds half-even at 18 decimals) before truncation", "rates above 2*10^18/s and a deposit of k*rate - 1: the zero time is one second late and the deposit cannot sustain the rate"),
+ "C11l": ("C11", "rate change skips the settlement when less than a second has passed since the last outflow", "a sub-second gap, then a claim at the next whole second"),
+ "C12k": ("C12", "top-up refused unless spendable > amount", "a top-up of exactly the sender's whole balance"),
+ "C12l": ("C12", "top-up of an expired stream rebuilds the stream struct and forgets Cancellable", "top-up after the zero time with deposit left, then cancel is refused for good"),
+ "C14k": ("C14", "tally checks accepts first and falls through into the reject check", "signer set shrunk by governance so that old decisions satisfy both: accepted then rejected, next BeginBlock panics"),
+ "C14l": ("C14", "mint helper refuses module accounts", "the governance account as purchaser (same idea as C14g)"),
+ "C15k": ("C15", "both unlock branches share a helper that decrements the total by the whole fee", "locked < fee <= locked + liquid while others hold locked eFUND: total < escrow, the export no longer imports"),
+ "C15l": ("C15", "SetBeaconStorageLimit refuses limits above the current maximum", "purchase, maximum lowered by governance, export / import panics"),
  "C14e": ("C14", "accepted order of a de-whitelisted purchaser set to rejected but left in the accepted queue", "whitelist removal before minting: BeginBlock panics from the next block on"),
  "C14f": ("C14", "decisions admitted on accepted orders + decision handler re-queues the order as raised (two files)", "a second signer decides in the one block between acceptance and minting: BeginBlock panics"),
  "C15e": ("C15", "enterprise InitGenesis adds imported spent records onto existing ones (the module is initialised twice by the app)", "an account with spent eFUND, import through the real InitChain"),
